@@ -34,7 +34,7 @@ TABLE_OBLIGATIONS = [NS + n for n in [
     "canonical_host_accepted",
 ]]
 
-OPS = ("fb_parse", "fb_comments", "fb_pred", "fb_record", "fb_reparse", "fb_re", "fb_py")
+OPS = ("fb_parse", "fb_comments", "fb_pred", "fb_record", "fb_reparse", "fb_hyp", "fb_re", "fb_py")
 
 
 def owns_op(op):
@@ -142,6 +142,11 @@ def run_op(op):
                 return "no-url"
             return rec_json(fb.parse_facebook_url(u))
         return lib.guarded(go)
+    if f == "fb_hyp":
+        def hyp():
+            r = fb.parse_facebook_url(op["url"], allow_relative_urls=op["rel"])
+            return None if r is None else reparsable(fb, r)
+        return lib.guarded(hyp)
     if f == "fb_re":
         from ural import utils
 
@@ -174,6 +179,7 @@ def ops(case):
             {"f": "fb_parse", "url": u, "rel": rel},
             {"f": "fb_comments", "url": u, "rel": rel},
             {"f": "fb_reparse", "url": u, "rel": rel},
+            {"f": "fb_hyp", "url": u, "rel": rel},
             {"f": "fb_pred", "s": u},
         ]
     if k == "str":
@@ -192,6 +198,67 @@ def ops(case):
 
 def impl(case):
     return [run_op(o) for o in ops(case)]
+
+
+# --------------------------------------------------------------------------------------
+# the hypothesis of the round-trip theorem (`Ural.Facebook.reparsable`, Model/FacebookScope.lean),
+# ported to Python: compared with the Lean predicate on every parsed record (op `fb_hyp`), used
+# only to label the inputs "covered by the theorem" / "explored only" in the distribution
+# --------------------------------------------------------------------------------------
+def seg_ok(s):
+    return s != "" and all(c not in "/?#;" and not c.isspace() for c in s) and s not in (".", "..")
+
+
+def qval_ok(s):
+    return s != "" and all(c not in "&#+%\t\r\n" for c in s)
+
+
+def no_watch(s):
+    return not s.startswith("watch")
+
+
+def reparsable(fb, r):
+    t = type(r).__name__
+    isid = fb.is_facebook_id
+    if t == "FacebookUser":
+        return r.handle is None and qval_ok(r.id)
+    if t == "FacebookHandle":
+        h = r.handle
+        return seg_ok(h) and no_watch(h) and not h.startswith("people") and not h.endswith(".php")
+    if t == "FacebookGroup":
+        if (r.id is None) == (r.handle is None):
+            return False
+        g = r.id if r.id is not None else r.handle
+        return seg_ok(g) and no_watch(g) and (isid(g) == (r.id is not None))
+    if t == "FacebookPost":
+        set_ = [x is not None for x in (r.parent_id, r.parent_handle, r.group_id, r.group_handle)]
+        if sum(set_) != 1:
+            return False
+        if r.parent_id is not None:
+            return qval_ok(r.parent_id) and qval_ok(r.id)
+        if r.parent_handle is not None:
+            ph = r.parent_handle
+            return (seg_ok(ph) and seg_ok(r.id) and no_watch(ph) and no_watch(r.id) and not isid(ph)
+                    and ph not in ("videos", "photos", "groups"))
+        g = r.group_id if r.group_id is not None else r.group_handle
+        return (seg_ok(g) and seg_ok(r.id) and no_watch(g) and no_watch(r.id) and g not in ("videos", "photos")
+                and isid(g) == (r.group_id is not None))
+    if t == "FacebookVideo":
+        if r.parent_id is None:
+            return qval_ok(r.id)
+        return seg_ok(r.parent_id) and seg_ok(r.id) and no_watch(r.parent_id) and no_watch(r.id)
+    if t == "FacebookPhoto":
+        if r.parent_id is None and r.parent_handle is None:
+            return qval_ok(r.id) and all(x is None or qval_ok(x) for x in (r.group_id, r.album_id))
+        if r.parent_id is not None and r.parent_handle is not None:
+            return False
+        if r.group_id is not None or r.album_id is None:
+            return False
+        p = r.parent_id if r.parent_id is not None else r.parent_handle
+        a = r.album_id
+        return (seg_ok(p) and seg_ok(r.id) and all(c not in "/?#;" and not c.isspace() for c in a) and no_watch(p)
+                and no_watch(r.id) and p != "videos" and "a." not in a and isid(p) == (r.parent_id is not None))
+    return False
 
 
 # --------------------------------------------------------------------------------------
@@ -650,6 +717,8 @@ def classify(case):
     try:
         r = fb.parse_facebook_url(u, allow_relative_urls=case["rel"])
         labs.append("result=" + (type(r).__name__ if r is not None else "None"))
+        if r is not None:
+            labs.append("reparse=" + ("proved" if reparsable(fb, r) else ("explored-only" if in_scope(r) else "not-demanded")))
     except Exception as e:  # noqa
         labs.append("result=!" + type(e).__name__)
         r = None
